@@ -1,0 +1,54 @@
+//go:build verif
+
+package xrand
+
+import (
+	"context"
+
+	"github.com/bradenaw/juniper/iterator"
+	"github.com/bradenaw/juniper/stream"
+)
+
+// Read-only exports for the verification harness (/verif). Built only with -tags verif.
+
+// VerifRand is the random source the unexported functions of this package consume.
+type VerifRand interface {
+	Float64() float64
+	Intn(int) int
+	Shuffle(int, func(int, int))
+}
+
+// VerifSamplerDecisions runs the unexported sampler with the caller-supplied random source for a
+// reservoir of size k and returns its (next, replace) decisions, up to and including the first
+// one with next >= n, but at most max of them.
+func VerifSamplerDecisions(r VerifRand, k int, n int, max int) [][2]int {
+	samp := newSampler(r, k)
+	var out [][2]int
+	for len(out) < max {
+		next, replace := samp.Next()
+		out = append(out, [2]int{next, replace})
+		if next >= n {
+			break
+		}
+	}
+	return out
+}
+
+// VerifRSample is rSample with a caller-supplied random source.
+func VerifRSample(r VerifRand, n int, k int) []int { return rSample(r, n, k) }
+
+// VerifRSampleSlice is rSampleSlice with a caller-supplied random source.
+func VerifRSampleSlice[T any](r VerifRand, a []T, k int) []T { return rSampleSlice(r, a, k) }
+
+// VerifRSampleIterator is rSampleIterator with a caller-supplied random source.
+func VerifRSampleIterator[T any](r VerifRand, iter iterator.Iterator[T], k int) []T {
+	return rSampleIterator(r, iter, k)
+}
+
+// VerifRSampleStream is rSampleStream with a caller-supplied random source.
+func VerifRSampleStream[T any](ctx context.Context, r VerifRand, s stream.Stream[T], k int) ([]T, error) {
+	return rSampleStream(ctx, r, s, k)
+}
+
+// VerifRShuffle is rShuffle with a caller-supplied random source.
+func VerifRShuffle[T any](r VerifRand, a []T) { rShuffle(r, a) }
